@@ -227,7 +227,7 @@ PROPS = {
     "C15": {
         "id": "C15",
         "title": "Prime and power-of-two helpers agree with number theory and terminate",
-        "rules": ["N2", "N2s"],
+        "rules": ["N2", "N2s", "M1"],
         "clause": "no trial-division bound is computed in a type that can wrap for a 32-bit argument (necessary for correctness and "
                   "for termination within sqrt(n) steps above 65521^2)",
         "not_decided": "agreement with number theory below the wrap threshold (value-level), nextpow2/ispow2",
